@@ -38,13 +38,13 @@ type Method struct {
 
 // Field is a message field (only what the harness needs).
 type Field struct {
-	Name     string                                `json:"name"`
-	Number   int32                                 `json:"number"`
+	Name     string                                 `json:"name"`
+	Number   int32                                  `json:"number"`
 	Type     descriptorpb.FieldDescriptorProto_Type `json:"type"`
-	TypeName string                                `json:"type_name,omitempty"`
-	Repeated bool                                  `json:"repeated,omitempty"`
-	Oneof    *int32                                `json:"oneof,omitempty"`
-	Optional bool                                  `json:"optional,omitempty"`
+	TypeName string                                 `json:"type_name,omitempty"`
+	Repeated bool                                   `json:"repeated,omitempty"`
+	Oneof    *int32                                 `json:"oneof,omitempty"`
+	Optional bool                                   `json:"optional,omitempty"`
 }
 
 // Message is a (possibly nested) message.
